@@ -202,7 +202,7 @@ def run_sequence(g, xpn, counters, viol):
         n = m.x.shape[0] if np.ndim(m.x) == 2 else 0
         if n < 2:
             break
-        op = str(g.choice(["select", "select", "partition", "concat", "pickle", "dict"]))
+        op = str(g.choice(["select", "select", "partition", "concat", "pickle", "dict", "convert"]))
         if op == "select":
             kind, idx_obj, idx_model = gen_index(g, n, xpn, xp)
             if kind == "empty":
@@ -268,6 +268,23 @@ def run_sequence(g, xpn, counters, viol):
             counters["concat_judged"] += 1
             s, m = s2, m2
             kinds_done.append("concat")
+        elif op == "convert":
+            # same-namespace conversion (and deepcopy): an identity on every field, including carried evidence
+            import copy as _copy
+
+            how = str(g.choice(["to_namespace", "to_numpy", "deepcopy"])) if xpn == "numpy" else str(g.choice(["to_namespace", "deepcopy"]))
+            s2 = s.to_namespace(xp) if how == "to_namespace" else (s.to_numpy() if how == "to_numpy" else _copy.deepcopy(s))
+            mm = m if not (cls_name == "SMCSamples" and how == "to_namespace") else Model(m.cls, m.x, m.ll, m.lp, m.lq, m.params, m.dtype, None, None, None)
+            if cls_name == "SMCSamples" and how == "to_namespace":
+                # BaseSamples.to_namespace does not carry the SMC-only attributes (recorded in C15's assumptions)
+                counters["smc_to_namespace_attrs_lost_recorded"] += 1
+                compare(s2, mm, xpn, f"convert-{how}", viol, judge_evidence=False)
+                s2.beta, s2.log_evidence, s2.log_evidence_error = m.beta, m.le, m.lee
+            else:
+                compare(s2, m, xpn, f"convert-{how}", viol)
+            counters["convert_judged"] += 1
+            s = s2
+            kinds_done.append("convert")
         elif op == "pickle":
             s2 = pickle.loads(pickle.dumps(s))
             compare(s2, m, xpn, "pickle", viol)
